@@ -9,6 +9,17 @@
 //! (sequential and concurrent), the first mismatches in full, panics, whether one more query after
 //! the run succeeds (a poisoned mutex would panic), the order of the first tickets, and a dump of
 //! the regex cache.  A watchdog turns a hang into exit code 3.
+//!
+//! Policy runs (`"policy": {"full": bool, "per": n}` in the run record): the run's queries are cut
+//! into phases of `per` queries per thread; phase k starts with `set_regex_discard_policy` of the
+//! k-th policy of a seeded script over EXTREME durations (0, 1 ns, 1 ms, 1 s, 1 h, u64::MAX/2 s,
+//! Duration::MAX for both fields; `full` = both fields walk through all 49 ordered pairs).  The
+//! script is walked twice: on one thread (policy set before the first and between later queries,
+//! through `Engine` and through `Blocker`), and on the shared engine, where after a barrier one
+//! thread (in turn) sets the policy WHILE the others already run the phase's queries.  Every
+//! answer is compared with the sequential reference; policy calls and queries are registered as
+//! in-flight operations, and the watchdog reports the operation that does not return
+//! (`C19-STUCK {json}` on stderr, exit code 3).
 mod common;
 use common::*;
 
@@ -38,19 +49,37 @@ fn panic_message(e: Box<dyn std::any::Any + Send>) -> String {
     }
 }
 
+// ---------------------------------------------------------------- in-flight operations (policy runs)
+static INFLIGHT: Mutex<Vec<(u64, usize, usize, Instant, String)>> = Mutex::new(Vec::new());
+static OP_ID: AtomicU64 = AtomicU64::new(1);
+/// Register an operation that is about to start; `op_done` removes it.  The watchdog reports the
+/// operations that stay registered longer than the plan's `op_seconds`.
+fn op_start(run: usize, thread: usize, what: impl FnOnce() -> String) -> u64 {
+    let id = OP_ID.fetch_add(1, Ordering::Relaxed);
+    INFLIGHT.lock().unwrap_or_else(|e| e.into_inner()).push((id, run, thread, Instant::now(), what()));
+    id
+}
+fn op_done(id: u64) {
+    let mut g = INFLIGHT.lock().unwrap_or_else(|e| e.into_inner());
+    if let Some(p) = g.iter().position(|x| x.0 == id) {
+        g.swap_remove(p);
+    }
+}
+
 struct ThreadOut {
     digest: u64,
     bits: Vec<bool>,
     mismatches: Vec<Value>,
     panics: Vec<Value>,
     noise_ops: usize,
+    policy_calls: usize,
     /// in-run snapshots of the cache: entries seen compiled / compiled with a regex text that is
     /// not the one of the rule at that address
     seen_compiled: usize,
     seen_bad: usize,
 }
 
-fn run_one(spec: &RunSpec, prefix: usize, noise: bool, full: bool, progress: &AtomicU64) -> Value {
+fn run_one(ri: usize, spec: &RunSpec, prefix: usize, noise: bool, full: bool, policy: Option<&PolicyPlan>, progress: &AtomicU64) -> Value {
     let t0 = Instant::now();
     let w = gen_workload(spec);
     // --- sequential reference on the thread-safe build
@@ -72,6 +101,37 @@ fn run_one(spec: &RunSpec, prefix: usize, noise: bool, full: bool, progress: &At
             .map(move |(qi, a)| json!({"thread": ti, "index": qi, "where": "sequential (thread-safe build, one thread)", "message": a})).collect::<Vec<_>>())
         .take(3).collect();
 
+    // --- policy run: the script walked on ONE thread (thread-safe build)
+    let mut policy_seq = None;
+    if let Some(plan) = policy {
+        let mut pe = build_engine(&w);
+        let mut cur: Option<u64> = None;
+        let (pa, set_panics) = policy_sequential(&mut pe, &w, plan, &mut |what| match what {
+            Some(t) => cur = Some(op_start(ri, usize::MAX, || t)),
+            None => {
+                if let Some(id) = cur.take() {
+                    op_done(id);
+                }
+            }
+        });
+        let mut mism: Vec<Value> = vec![];
+        for (ti, v) in pa.iter().enumerate() {
+            for (qi, a) in v.iter().enumerate() {
+                if *a != seq_answers[ti][qi] && mism.len() < 3 {
+                    let k = qi / plan.per;
+                    mism.push(json!({"thread_list": ti, "index": qi, "phase": k, "policy": plan.script[k.min(plan.script.len() - 1)].describe(),
+                        "query": w.queries[ti][qi].describe(), "reference": seq_answers[ti][qi], "after_policy_change": a}));
+                }
+            }
+            progress.fetch_add(1, Ordering::Relaxed);
+        }
+        policy_seq = Some(json!({
+            "digest": pa.iter().map(|v| format!("{:016x}", digest_of(v))).collect::<Vec<_>>(),
+            "mismatches": mism, "set_panics": set_panics,
+            "set_calls": plan.script.iter().map(|p| (if p.twice { 2 } else { 1 }) + if p.mid && plan.per > 1 { if p.twice { 2 } else { 1 } } else { 0 }).sum::<usize>(),
+        }));
+    }
+
     // --- concurrent run on one shared engine
     let engine = Arc::new(build_engine(&w));
     let addrs = rule_addresses(&engine, &w.rules);
@@ -87,11 +147,34 @@ fn run_one(spec: &RunSpec, prefix: usize, noise: bool, full: bool, progress: &At
             let (ticket, order, barrier, outs, stop_on_panic, addrs) = (&ticket, &order, &barrier, &outs, &stop_on_panic, &addrs);
             let seq = &seq_answers[ti];
             let seed = spec.seed;
+            let threads_n = spec.threads;
             sc.spawn(move || {
                 let mut nr = XRng::new(seed ^ (0xC19 + ti as u64 * 7919));
-                let mut out = ThreadOut { digest: FNV0, bits: Vec::with_capacity(qs.len()), mismatches: vec![], panics: vec![], noise_ops: 0, seen_compiled: 0, seen_bad: 0 };
+                let mut out = ThreadOut { digest: FNV0, bits: Vec::with_capacity(qs.len()), mismatches: vec![], panics: vec![], noise_ops: 0, policy_calls: 0, seen_compiled: 0, seen_bad: 0 };
                 barrier.wait();
                 for (qi, q) in qs.iter().enumerate() {
+                    // policy run: at a phase boundary all threads meet; then ONE thread (in turn)
+                    // sets the phase's policy while the others already run the phase's queries
+                    let phase = policy.map(|plan| (qi / plan.per, &plan.script[(qi / plan.per).min(plan.script.len() - 1)], plan.per));
+                    if let Some((k, ph, per)) = phase {
+                        if qi % per == 0 {
+                            barrier.wait();
+                        }
+                        let setter = k % threads_n == ti;
+                        if setter && (qi % per == 0 || (ph.mid && per > 1 && qi % per == per / 2)) {
+                            for _ in 0..(if ph.twice { 2 } else { 1 }) {
+                                let id = op_start(ri, ti, || format!("set_regex_discard_policy({}) via Blocker (&self) before query {} (phase {}), other threads querying", ph.describe(), qi, k));
+                                let r = catch_unwind(AssertUnwindSafe(|| engine.verif_blocker().set_regex_discard_policy(ph.policy())));
+                                op_done(id);
+                                out.policy_calls += 1;
+                                if let Err(e) = r {
+                                    if out.panics.len() < 3 {
+                                        out.panics.push(json!({"thread": ti, "index": qi, "where": format!("set_regex_discard_policy({})", ph.describe()), "message": panic_message(e)}));
+                                    }
+                                }
+                            }
+                        }
+                    }
                     if noise {
                         match nr.below(40) {
                             0 => {
@@ -132,20 +215,35 @@ fn run_one(spec: &RunSpec, prefix: usize, noise: bool, full: bool, progress: &At
                     if t < order.len() {
                         order[t].store(ti as u32, Ordering::SeqCst);
                     }
-                    match catch_unwind(AssertUnwindSafe(|| answer(&engine, q))) {
+                    let op = phase.map(|(k, ph, _)| op_start(ri, ti, || format!("query {} ({}) in phase {} under policy {}", qi, q.describe(), k, ph.describe())));
+                    let answered = catch_unwind(AssertUnwindSafe(|| answer(&engine, q)));
+                    if let Some(id) = op {
+                        op_done(id);
+                    }
+                    match answered {
                         Ok((a, b)) => {
                             out.digest = fnv(out.digest, &a);
                             out.bits.push(b);
                             if a != seq[qi] && out.mismatches.len() < 3 {
-                                out.mismatches.push(json!({"thread": ti, "index": qi, "query": q.describe(),
-                                    "sequential": seq[qi], "concurrent": a}));
+                                let mut m = json!({"thread": ti, "index": qi, "query": q.describe(),
+                                    "sequential": seq[qi], "concurrent": a});
+                                if let Some((k, ph, _)) = phase {
+                                    m["phase"] = json!(k);
+                                    m["policy"] = json!(ph.describe());
+                                }
+                                out.mismatches.push(m);
                             }
                         }
                         Err(e) => {
                             out.digest = fnv(out.digest, "PANIC");
                             out.bits.push(false);
                             if out.panics.len() < 3 {
-                                out.panics.push(json!({"thread": ti, "index": qi, "query": q.describe(), "message": panic_message(e)}));
+                                let mut m = json!({"thread": ti, "index": qi, "query": q.describe(), "message": panic_message(e)});
+                                if let Some((k, ph, _)) = phase {
+                                    m["phase"] = json!(k);
+                                    m["policy"] = json!(ph.describe());
+                                }
+                                out.panics.push(m);
                             }
                             stop_on_panic.store(true, Ordering::SeqCst);
                         }
@@ -206,9 +304,24 @@ fn run_one(spec: &RunSpec, prefix: usize, noise: bool, full: bool, progress: &At
         "inrun_bad_seen": outs.iter().map(|(_, o)| o.seen_bad).sum::<usize>(),
         "seq_ms": t_seq.as_millis() as u64, "conc_ms": t_conc.as_millis() as u64,
     });
+    if let (Some(plan), Some(ps)) = (policy, policy_seq) {
+        res["policy"] = json!({
+            "phases": plan.script.len(), "per": plan.per,
+            "script": plan.script.iter().map(|p| p.describe()).collect::<Vec<_>>(),
+            "sequential": ps,
+            "concurrent_set_calls": outs.iter().map(|(_, o)| o.policy_calls).sum::<usize>(),
+        });
+    }
     // exclusive phase: &mut self methods lock the same mutex (clear() after re-tagging)
     let retag = match Arc::try_unwrap(engine) {
-        Ok(mut e) => catch_unwind(AssertUnwindSafe(|| retag_and_query(&mut e, &w))).map_err(panic_message),
+        Ok(mut e) => catch_unwind(AssertUnwindSafe(|| {
+            if policy.is_some() {
+                // exclusive phase of a policy run: the longest policy through `&mut Engine`, twice
+                e.set_regex_discard_policy(adblock::regex_manager::RegexManagerDiscardPolicy { cleanup_interval: extreme(6), discard_unused_time: extreme(6) });
+                e.set_regex_discard_policy(adblock::regex_manager::RegexManagerDiscardPolicy { cleanup_interval: extreme(1), discard_unused_time: extreme(6) });
+            }
+            retag_and_query(&mut e, &w)
+        })).map_err(panic_message),
         Err(_) => Err("engine still shared after the scope ended".to_string()),
     };
     match retag {
@@ -252,6 +365,7 @@ fn main() {
     // silence the default panic hook: panics inside worker threads are caught and reported
     std::panic::set_hook(Box::new(|_| {}));
     let stall_s = plan["stall_seconds"].as_u64().unwrap_or(60);
+    let op_s = plan["op_seconds"].as_u64().unwrap_or(60);
     let progress = Arc::new(AtomicU64::new(0));
     let phase = Arc::new(AtomicU64::new(0));
     {
@@ -262,11 +376,32 @@ fn main() {
             let mut since = Instant::now();
             loop {
                 std::thread::sleep(Duration::from_millis(500));
+                // an operation of a policy run that does not return
+                let stuck: Vec<Value> = {
+                    let g = INFLIGHT.lock().unwrap_or_else(|e| e.into_inner());
+                    if g.iter().any(|x| x.3.elapsed() > Duration::from_secs(op_s)) {
+                        let mut v: Vec<&(u64, usize, usize, Instant, String)> = g.iter().collect();
+                        v.sort_by_key(|x| x.3);
+                        v.iter().map(|x| json!({"run": x.1, "thread": if x.2 == usize::MAX { -1 } else { x.2 as i64 }, "seconds": x.3.elapsed().as_secs(), "op": x.4})).collect()
+                    } else {
+                        vec![]
+                    }
+                };
+                if !stuck.is_empty() {
+                    for s in &stuck {
+                        eprintln!("C19-STUCK {}", s);
+                    }
+                    eprintln!("C19-WATCHDOG: an operation did not return within {} s: deadlock or livelock", op_s);
+                    std::process::exit(3);
+                }
                 let now = (phase.load(Ordering::SeqCst), progress.load(Ordering::SeqCst));
                 if now != last {
                     last = now;
                     since = Instant::now();
                 } else if since.elapsed() > Duration::from_secs(stall_s) {
+                    for x in INFLIGHT.lock().unwrap_or_else(|e| e.into_inner()).iter() {
+                        eprintln!("C19-STUCK {}", json!({"run": x.1, "thread": if x.2 == usize::MAX { -1 } else { x.2 as i64 }, "seconds": x.3.elapsed().as_secs(), "op": x.4}));
+                    }
                     eprintln!("C19-WATCHDOG: no progress for {} s ({} runs started, {} queries answered): deadlock or livelock", stall_s, now.0, now.1);
                     std::process::exit(3);
                 }
@@ -296,9 +431,10 @@ fn main() {
                 let noise = r["noise"].as_bool().unwrap_or(true);
                 let full = r["full"].as_bool().unwrap_or(false);
                 let repeat = r["repeat"].as_u64().unwrap_or(1);
+                let policy = r.get("policy").filter(|p| p.is_object()).map(|p| policy_plan(spec.seed, spec.queries, p["full"].as_bool().unwrap_or(false), p["per"].as_u64().unwrap_or(4) as usize));
                 for k in 0..repeat {
                     phase.fetch_add(1, Ordering::SeqCst);
-                    let mut v = run_one(&spec, prefix, noise, full, progress);
+                    let mut v = run_one(ri, &spec, prefix, noise, full, policy.as_ref(), progress);
                     v["run"] = json!(ri);
                     results_m.lock().unwrap().push((ri, k, v));
                 }
